@@ -1404,9 +1404,17 @@ VmTrap vm_core_execute(VmState *vm) {
                 vm_release(&vm->heap, arr);
                 return trap_error(vm, VM_ERR_TYPE_ERROR, "ARR_SLICE: not an array");
             }
-            uint32_t start = (uint32_t)(start_v.tag == TAG_INT ? start_v.as.i64 : 0);
-            uint32_t end = (uint32_t)(end_v.tag == TAG_INT ? end_v.as.i64 : arr.as.array->length);
-            VmArray *result = vm_array_slice(&vm->heap, arr.as.array, start, end);
+            /* array_slice(arr, start, length): the code generator pushes start and length; negative
+             * values and ranges past the end are clamped exactly as the native runtime and the
+             * interpreter do */
+            int64_t alen = (int64_t)arr.as.array->length;
+            int64_t start = start_v.tag == TAG_INT ? start_v.as.i64 : 0;
+            int64_t count = end_v.tag == TAG_INT ? end_v.as.i64 : alen;
+            if (start < 0) start = 0;
+            if (count < 0) count = 0;
+            if (start > alen) start = alen;
+            int64_t end = (count > alen - start) ? alen : start + count;
+            VmArray *result = vm_array_slice(&vm->heap, arr.as.array, (uint32_t)start, (uint32_t)end);
             vm_release(&vm->heap, arr);
             stack_push(vm, val_array(result));
             break;
